@@ -15,12 +15,17 @@ ATOM_SPECS = {
     "minLength": ("ex.str", "minLength: 2"), "maxLength": ("ex.str", "maxLength: 3"), "exactLength": ("ex.str", "exactLength: 2"),
     "pattern": ("ex.str", "pattern: ^a{2,3}$"), "in": ("ex.str", "in: [aa, aaa]"), "inNumbers": ("ex.num", "in: [2, 3]"),
     "containsAll": ("ex.str", "containsAll: [aa, aaa]"), "containsSome": ("ex.str", "containsSome: [aa, aaa]"),
+    "inHalves": ("ex.half", "in: [2.5, 3.5]"), "inIntsOnFractions": ("ex.frac", "in: [2, 3]"),
+    "containsAllHalves": ("ex.half", "containsAll: [2.5, 3.5]"), "containsSomeHalves": ("ex.half", "containsSome: [2.5, 3.5]"),
     "minCount": ("ex.num", "minCount: 2"), "maxCount": ("ex.num", "maxCount: 2"), "exactCount": ("ex.num", "exactCount: 2"),
     "lessThanProperty": ("ex.num", "lessThanProperty: ex.num2"),
     "lessThanOrEqualsToProperty": ("ex.num", "lessThanOrEqualsToProperty: ex.num2"),
     "equalsToProperty": ("ex.num", "equalsToProperty: ex.num2"),
     "disjointWithProperty": ("ex.num", "disjointWithProperty: ex.num2"),
 }
+
+
+NON_INTEGER = ("inHalves", "inIntsOnFractions", "containsAllHalves", "containsSomeHalves")
 
 
 def vname(kind, neg):
@@ -59,6 +64,8 @@ def data(rnd):
             if S:
                 n[EX + "num"] = S if len(S) > 1 or rnd.random() < .5 else S[0]
                 n[EX + "str"] = ["a" * v for v in S]
+                n[EX + "half"] = [v + 0.5 for v in S]
+                n[EX + "frac"] = [v + 0.7 for v in S]
             if T:
                 n[EX + "num2"] = T
             nodes.append(n)
@@ -101,9 +108,13 @@ def run(V, rnd):
             for cell in sorted((seen ^ want) - {"decoy"}):
                 if cell in jd:
                     S, T = bits(cell[1:5]), bits(cell[6:10])
-                    V.disagree("atom %s on a property with %d value(s)%s: %s" % (
-                        name, len(S), (" against %d" % len(T)) if "Property" in c["kind"] else "",
-                        "reported although it holds" if cell in seen else "not reported although it fails"),
+                    how = "reported although it holds" if cell in seen else "not reported although it fails"
+                    if c["kind"] in NON_INTEGER:
+                        key = "atom %s (%s) on non-integer numbers: %s" % (name, ATOM_SPECS[c["kind"]][1], how)
+                    else:
+                        key = "atom %s on a property with %d value(s)%s: %s" % (
+                            name, len(S), (" against %d" % len(T)) if "Property" in c["kind"] else "", how)
+                    V.disagree(key,
                         {"validation": name, "values": S, "other_values": T, "entry": o["id"],
                          "profile": profile([c]), "expected_reported": cell in want})
                 else:
